@@ -174,3 +174,108 @@ Proof.
     apply encoder_ok_shape in Ht. destruct Ht as (Ht & _).
     rewrite find_smallest_capacity, El in Ht. discriminate.
 Qed.
+
+Lemma encode_bits_representable content level mode : valid_encoding mode ->
+  if qr_representable content level mode
+  then exists bits vi, encode_bits content level mode = Ok (bits, vi)
+  else encode_bits content level mode = Err.
+Proof.
+  intros Hm. unfold qr_representable, encode_bits.
+  pose proof (encoder_representable SNumeric content level) as Hn.
+  pose proof (encoder_representable SAlnum content level) as Ha.
+  pose proof (encoder_representable SByte content level) as Hb.
+  cbn [encoder_of] in Hn, Ha, Hb.
+  destruct Hm as [->|[->|[->| ->]]];
+    cbn [Z.eqb Pos.eqb qr_enc_auto qr_enc_numeric qr_enc_alphanumeric qr_enc_unicode];
+    destruct (level_of_Z level) as [l|]; try assumption.
+  - unfold encode_auto.
+    destruct (mode_representable SNumeric l content).
+    + destruct Hn as (bits & vi & ->). cbn [orb]. eauto.
+    + rewrite Hn. destruct (mode_representable SAlnum l content).
+      * destruct Ha as (bits & vi & ->). cbn [orb]. eauto.
+      * rewrite Ha. destruct (mode_representable SByte l content).
+        -- destruct Hb as (bits & vi & ->). cbn [orb]. eauto.
+        -- rewrite Hb. reflexivity.
+  - unfold encode_auto. rewrite Hn, Ha, Hb. reflexivity.
+Qed.
+
+Lemma qr_encode_of_bits content level mode mask bits vi :
+  valid_encoding mode -> 0 <= mask < 8 ->
+  encode_bits content level mode = Ok (bits, vi) ->
+  exists bc, qr_encode content level mode mask = Ok bc.
+Proof.
+  intros Hm Hk Ebits.
+  destruct (encode_bits_cases content level mode bits vi Hm Ebits) as (sm & Eenc).
+  destruct (encoder_ok_shape sm content level bits vi Eenc) as (Hfind & _ & Hblen).
+  destruct (find_smallest_some _ _ _ _ Hfind) as (Hin & Hlvl & _).
+  destruct (row_facts vi Hin) as (l & Hl & Hv & _).
+  destruct (codewords_of_bits_spec rs_holds bits vi l Hin Hl Hblen) as (data & Ecw & BF).
+  destruct (render_spec vi l mask data Hin Hl Hk (bf_length _ _ _ _ BF)) as (m & Er & _).
+  unfold qr_encode, qr_encode_data. rewrite Ebits. cbn [obind]. rewrite Ecw. cbn [obind].
+  rewrite Er. cbn [obind]. eauto.
+Qed.
+
+(* C10 for QR: for the four defined modes, every level value and every content the
+   model terminates without Panic / OutOfFuel, returns a barcode exactly when the
+   content is representable and the error otherwise *)
+Theorem qr_c10 content level mode mask : valid_encoding mode -> 0 <= mask < 8 ->
+  if qr_representable content level mode
+  then exists bc, qr_encode content level mode mask = Ok bc
+  else qr_encode content level mode mask = Err.
+Proof.
+  intros Hm Hk. pose proof (encode_bits_representable content level mode Hm) as H.
+  destruct (qr_representable content level mode).
+  - destruct H as (bits & vi & E). apply (qr_encode_of_bits content level mode mask bits vi Hm Hk E).
+  - unfold qr_encode, qr_encode_data. rewrite H. reflexivity.
+Qed.
+
+(* an Encoding value that is none of the four constants: getEncoder() returns nil and
+   the call panics (outside the parameter domain of C10; reported as a finding) *)
+Theorem qr_c10_unknown_mode content level mode mask : ~ valid_encoding mode ->
+  qr_encode content level mode mask = Panic.
+Proof.
+  intros Hm. unfold qr_encode, qr_encode_data, encode_bits.
+  destruct (mode =? qr_enc_auto) eqn:E0; [exfalso; apply Hm; left; lia|].
+  destruct (mode =? qr_enc_numeric) eqn:E1; [exfalso; apply Hm; right; left; lia|].
+  destruct (mode =? qr_enc_alphanumeric) eqn:E2; [exfalso; apply Hm; right; right; left; lia|].
+  destruct (mode =? qr_enc_unicode) eqn:E3; [exfalso; apply Hm; right; right; right; lia|].
+  reflexivity.
+Qed.
+
+(* sanity: the capacity limits of version 40-L *)
+Example qr_c10_capacity_examples :
+  mode_representable SNumeric LvL (repeat 48 7089) = true
+  /\ mode_representable SNumeric LvL (repeat 48 7090) = false
+  /\ mode_representable SAlnum LvL (repeat 65 4296) = true
+  /\ mode_representable SAlnum LvL (repeat 65 4297) = false
+  /\ mode_representable SByte LvL (repeat 200 2953) = true
+  /\ mode_representable SByte LvL (repeat 200 2954) = false.
+Proof. vm_compute. repeat split; reflexivity. Qed.
+
+(* ================= C11 ================= *)
+Theorem qr_c11 content level mode mask bc :
+  is_bytes content -> valid_encoding mode -> 0 <= mask < 8 ->
+  qr_encode content level mode mask = Ok bc ->
+  bc_kind bc = KQR /\ kind_dims (bc_kind bc) = 2 /\ bc_content bc = content /\ bc_checksum bc = None
+  /\ (exists v, 1 <= v <= 40 /\ bc_width bc = 17 + 4 * v /\ bc_height bc = 17 + 4 * v)
+  /\ zlength (bc_rows bc) = bc_height bc
+  /\ Forall (fun row => zlength row = bc_width bc) (bc_rows bc)
+  /\ (forall (C : Type) (scheme : C),
+        qr_encode_with_color content level mode mask scheme = Ok (bc, scheme)).
+Proof.
+  intros Hb Hm Hk H.
+  destruct (qr_encode_read_modulo_rs rs_holds content level mode mask bc Hb Hm Hk H)
+    as (vi & l & data & bits & r & _ & Hin & _ & _ & Hw & Hh & Hc & Hkind & Hcs & _).
+  destruct (row_facts vi Hin) as (_ & _ & Hv & _).
+  split; [exact Hkind|]. split; [rewrite Hkind; reflexivity|]. split; [exact Hc|]. split; [exact Hcs|].
+  split; [exists (vi_version vi); unfold spec_size in *; auto|].
+  unfold qr_encode in H. destruct (qr_encode_data content level mode) as [[d vi']| | |]; try discriminate.
+  cbn [obind] in H. destruct (render d vi' mask) as [m| | |] eqn:Er; try discriminate.
+  cbn [obind] in H. inversion H; subst bc. cbn [qr_barcode bc_rows bc_height bc_width] in *.
+  assert (Hd : 0 <= qm_dim m) by (rewrite Hw; unfold spec_size; lia).
+  split; [unfold zlength; rewrite rows_of_length; lia|]. split.
+  - apply Forall_forall. intros row Hrow. unfold rows_of in Hrow. apply in_map_iff in Hrow.
+    destruct Hrow as (y & <- & _). unfold zlength. rewrite map_length, zseq_length. lia.
+  - intros C scheme. unfold qr_encode_with_color, qr_encode.
+    destruct (qr_encode_data content level mode) as [[d2 vi2]| | |] eqn:E2; try discriminate.
+Abort.
